@@ -276,4 +276,15 @@ func isTargetPanic(r interface{}) bool {
 	return false
 }
 
-func (p *path) notePanicSite() {}
+// notePanicSite remembers the innermost function of the module under test at
+// the moment a panic starts (deferred calls run afterwards and would blur it).
+func (p *path) notePanicSite() {
+	if p == nil {
+		return
+	}
+	if fr := p.lastMkdbFrame; fr != nil {
+		p.panicAt = fr.fn.String()
+	} else if p.curFn != nil {
+		p.panicAt = p.curFn.String()
+	}
+}
